@@ -131,7 +131,7 @@ def evaluate(rel, idx, op, newline, checks, results, out_path):
             res["status"] = "nocompile"
             return res
         ok = False
-        for _ in range(2):
+        for _ in range(4):
             rc, out = sh(["go", "test", "-vet=off", "-count=1", "./..."], cwd=dst, timeout=900)
             if rc == 0:
                 ok = True
